@@ -10,9 +10,13 @@
  *   dict   <size> <script>                     size 0 = lydict_init(); script: +<hex> insert,
  *            -<hex> remove, *<hex> dup, =<hex> insert_zc (the buffer must be adopted iff the string is new)
  * A failing assert() of the library ends the script with ABORT (asserts are kept in all builds).
+ * A library call that does not return within 0.5 s ends the script with FUEL, the model's answer for a
+ * loop that runs longer than the arena is large (only reachable on a table corrupted by lyht_dup()).
  */
 #include "common.h"
 #include <setjmp.h>
+#include <signal.h>
+#include <sys/time.h>
 #include <pthread.h>
 #include "dict.c"
 #include "hash_table_internal.h"
@@ -30,6 +34,28 @@ __assert_fail(const char *assertion, const char *file, unsigned int line, const 
     }
     fprintf(stderr, "assert %s failed at %s:%u %s\n", assertion, file, line, function);
     abort();
+}
+
+static sigjmp_buf hang_jb;
+
+static void
+on_alarm(int sig)
+{
+    (void)sig;
+    siglongjmp(hang_jb, 1);
+}
+
+static void
+hang_timer(int on)
+{
+    struct itimerval it;
+
+    memset(&it, 0, sizeof it);
+    if (on) {
+        signal(SIGALRM, on_alarm);
+        it.it_value.tv_usec = 500000;
+    }
+    setitimer(ITIMER_REAL, &it, NULL);
 }
 
 static uint16_t g_val_size;
@@ -126,6 +152,7 @@ run_ht(struct vcase *c)
     g_val_size = (uint16_t)strtoul(c->f[3], NULL, 10);
     abort_armed = 1;
     if (setjmp(abort_jb)) {
+        hang_timer(0);
         printf(ht ? " || ABORT" : "ABORT");
         return;
     }
@@ -135,6 +162,13 @@ run_ht(struct vcase *c)
         printf("NULL");
         return;
     }
+    if (sigsetjmp(hang_jb, 1)) {
+        /* the table is corrupt (cyclic chain): do not walk or free it */
+        abort_armed = 0;
+        printf(" || FUEL");
+        return;
+    }
+    hang_timer(1);
     while (*p && (*p != '-')) {
         char op = *p++;
         uint32_t hash = 0;
@@ -200,6 +234,7 @@ run_ht(struct vcase *c)
             break;
         }
     }
+    hang_timer(0);
     abort_armed = 0;
     printf(" || ");
     dump_ht(ht, 0);
